@@ -5,6 +5,7 @@ import json
 import os
 import shutil
 
+import ext.pem
 import flow
 import gen
 import mockca
@@ -322,6 +323,7 @@ def evaluate(ctx, items, w, helper, tag=""):
             if not rec["failed"]:
                 ctx.broke("correspondence", "real storage layer and Storage.runHistory differ: %s" % rec["corr"][:3],
                           rec["replay"])
+    ext.pem.extend_c02_hist(ctx, helper, good)
     for hist, root, op, out in good[:2]:
         ctx.sample({"umask": "%o" % hist["umask"],
                     "steps": [{"ftype": s["ftype"], "what": s.get("what"), "over": (o.get("before") or {}).get("len"),
@@ -344,7 +346,7 @@ def flow_spec(rng, i):
         kt = "rsa2048"
     return {"key_type": kt, "chain_len": 1 + (i % 4), "renew_over_longer": i % 2 == 1,
             "ids": rng.choice([["example.org"], ["a.example.org", "b.example.org"], ["xn--bcher-kva.example"]]),
-            "kp_reuse": i % 6 == 5}
+            "kp_reuse": i % 6 == 5, "chain_sep": "\n" if i % 5 == 2 else ""}
 
 
 def run_flow(spec, root, helper):
@@ -371,7 +373,7 @@ def run_flow(spec, root, helper):
             f.write(k["pem"] + "# residue-marker\n" * 600)
         os.chmod(key_path, 0o600)
         pre_key["pub"] = k["pub_der_hex"]
-    obs = flow.run_scenario(root, [cert], ca_opts={"chain_len": spec["chain_len"]}, timeout=40, helper=helper, pre=pre)
+    obs = flow.run_scenario(root, [cert], ca_opts={"chain_len": spec["chain_len"], "chain_sep": spec.get("chain_sep", "")}, timeout=40, helper=helper, pre=pre)
     return obs, crt_path, key_path, pre_key
 
 
@@ -402,6 +404,9 @@ def judge_flow(ctx, spec, obs, crt_path, key_path, pre_key, helper):
                       "(sha256 %s), file %s" % (len(body), hashlib.sha256(body).hexdigest()[:16],
                                                 "%d bytes (sha256 %s)" % (cf["len"], cf["sha256"][:16]) if cf["present"] else "absent"),
                       replay_obj)
+    # the same file as a PEM chain (Model/Pem): Spec.C15.certChainIs with the DERs OpenSSL reads from the body
+    if cf["present"]:
+        ext.pem.extend_c02_flow(ctx, helper, spec, crt_path, cf["data"], body, not v.get("holds"), replay_obj)
     snap = (okposts[-1].get("files") or {})
     sc, sk = snap.get(crt_path), snap.get(key_path)
     if not sc or sc["sha256"] != hashlib.sha256(body).hexdigest():
